@@ -1,7 +1,7 @@
 SPECIFICATION Spec
 VIEW View
 CONSTANTS D = 2
-  MaxPages = 5
+  MaxPages = 4
   MaxWriters = 4
   MaxCbs = 2
   MVals = {"-"}
